@@ -280,14 +280,21 @@ def fma_probes(pty, level=1):
     twobit = []
     for mm in range(fb0 + 1, 2 * fb0 + 1):
         Nn = (1 << mm) + 1
-        # algebraic factor: 2^a + 1 divides 2^mm + 1 whenever mm / a is odd
-        for a_ in range(1, mm):
-            if mm % a_ == 0 and (mm // a_) % 2 == 1 and (mm // a_) >= 3:
-                A_ = (1 << a_) + 1
+        # every factorisation A * B with both factors below 2^W: the algebraic ones (2^a + 1 divides 2^mm + 1 whenever mm / a is odd) and a
+        # bounded trial division (the dense cofactors matter: they fill the multiplier)
+        cands = [(1 << a_) + 1 for a_ in range(1, mm) if mm % a_ == 0 and (mm // a_) % 2 == 1 and (mm // a_) >= 3]
+        cands += list(range(3, min(1 << W_, 1 << 14), 2))
+        got = 0
+        seen_ = set()
+        for A_ in cands:
+            if Nn % A_ == 0:
                 B_ = Nn // A_
-                if Nn % A_ == 0 and 1 < A_ < (1 << W_) and 1 < B_ < (1 << W_):
+                if 1 < A_ < (1 << W_) and 1 < B_ < (1 << W_) and (min(A_, B_), max(A_, B_)) not in seen_:
+                    seen_.add((min(A_, B_), max(A_, B_)))
                     twobit.append((mm, A_, B_))
-                    break
+                    got += 1
+                    if got >= 2:
+                        break
     tb_scales = scales if (level > 1 or n <= 16) else scales[::3]
     for s in tb_scales:
         fb = _frac_bits_at(p, s)
